@@ -9,35 +9,69 @@ rc_bin("c06_sched", ["harness/c06_sched.cc"], lib=False,
 rc_bin("c06_rc_tsan", ["harness/c06_counter_conservation.cc"], lib=True, san="tsan")
 PROPS["C06"] = dict(
     level_text="Stateful model-based property tests (rapidcheck, ASan/UBSan): generated histories of instrument creation "
-               "(repeated names give further handles), Add calls with pooled/permuted/repeated-key attribute sets and "
-               "Collect calls by 1..3 in-harness readers of generated temporality, over 0..2 views per instrument, are "
-               "compared collection by collection with exact per-(stream, attribute set) running totals and with the "
-               "interval rules for start/end timestamps; a real-thread variant races recorder threads against collector "
-               "threads (ThreadSanitizer build in the thorough tier). Exploration is the right level: histories, reader "
-               "configurations and interleavings are unbounded, the model is exact and cheap, and the defects of this "
-               "area (fast path vs. multi-reader path, registry keyed by name, lost updates) live in particular "
-               "history shapes that breadth of generation reaches.",
+               "(repeated names give further handles), Add calls (all eight overloads of the API header) with "
+               "pooled/permuted/repeated-key attribute sets, Collect calls by 1..4 in-harness readers of generated "
+               "temporality - readers may be registered late, after instruments, measurements and collections exist - "
+               "and handle destruction, over 0..3 views per instrument (for all meters or one meter) plus type-wide "
+               "wildcard views, are compared collection by collection with exact per-(stream, attribute set) running "
+               "totals and with the interval rules for start/end timestamps; a real-thread variant races recorder "
+               "threads (which also create instruments/meters and release handles) against collector threads "
+               "(ThreadSanitizer build in the thorough tier); a schedule-controlled variant (the metrics SDK compiled "
+               "against the scheduler shim) generates the interleaving itself. Exploration is the right level: "
+               "histories, reader configurations and interleavings are unbounded, the model is exact and cheap, and the "
+               "defects of this area (fast path vs. multi-reader path, registry keyed by name, lost updates) live in "
+               "particular history shapes that breadth of generation reaches.",
     technique="stateful model-based PBT (per-reader conservation model in exact integer units, interval model for "
               "timestamps); rapidcheck; real-thread runs with schedule-independent oracles (sum of deltas == recorded, "
-              "final cumulative == recorded, monotonic cumulative never decreases), ThreadSanitizer in the thorough tier",
+              "final cumulative == recorded, monotonic cumulative never decreases), ThreadSanitizer in the thorough tier; "
+              "schedule-controlled runs (E-SCHED) whose oracle uses logical stamps to decide what a collection must / "
+              "may contain",
     rule="A case = provider configuration (readers, temporalities, meters, instruments, views) + a program of "
-         "Create/Add/Collect/Destroy operations (or thread programs).",
+         "Create/Add/Collect/Destroy/AddReader operations (or thread programs, or thread programs + a schedule).",
+    generators="counter_history: 1..3 initial readers (D/C/mixed), 1..2 meters, 1..3 instruments x 4 kinds (twins: same "
+               "name, other value type / unit), 0..3 own views (rename, allow-list {k0}/{k0,k1}/{}, Sum/Default, "
+               "all meters / m0 / m1) + optional '*' view per instrument type; ops Add 50% (8 overload forms, value "
+               "classes 1..9 / 0 / <60000 / 2^40 / 2^40-1 / 40 random bits, negative for up-down), Collect 29%, Create "
+               "12%, Destroy 6%, AddReader 4% (up to 4 readers). counter_threads: same configuration; 25% of the "
+               "instruments and 40% of the second meters are first created by the recorder threads; 20% of the steps "
+               "use a thread-own handle, 40% of those release it right after the step. meter_sched: see harness/c06_sched.cc "
+               "(late reader 40%, view with empty allow-list 20%, second meter obtained by a recorder 20%, handle "
+               "renewal 25% per Add of an own handle).",
+    oracle="reference model written from the statement: exact running totals per (stream, attribute set after the "
+           "view's allow-list); delta == total now - total at the reader's previous collection; cumulative == total; "
+           "stream set == views whose selectors match (else the default stream), at most one MetricData per stream and "
+           "collection; cumulative start == SDK start, delta start == previous end (first: SDK start), interval end "
+           "inside the Collect call, interval contains its measurements. Late readers: two-sided (one admissible "
+           "starting point must explain the first collection, exact afterwards).",
     assumptions=[
         "values are bounded (|v| <= 2^40 for long, multiples of 2^-10 below 2^30 for double) so that no sum overflows or "
         "rounds; negative values are only given to up-down counters (the API documents counters as non-negative)",
         "either-regions: a series whose running total is 0 may be reported as 0 or be absent; a delta collection "
         "without new data may deliver nothing, a MetricData without points, or zero-valued points; a delta interval may "
         "start at the end of the previous delivered interval or inside one of the reader's own Collect calls since "
-        "then that delivered nothing for the stream; several MetricData of one stream in one collection are summed",
-        "timestamp order against the harness's own stamps (interval contains its measurements, end >= start) is skipped "
-        "for a case in which the system clock was observed stepping backwards; equalities (cumulative start == SDK "
-        "start, delta start == previous end) are always checked",
-        "the two views of one instrument always produce differently named streams, and a name is always re-created "
-        "with the same kind/unit/description (identical instrument): conflicting registrations are not part of the "
-        "statement",
+        "then that delivered nothing for the stream",
+        "the streams of a configuration differ pairwise in scope / name / value type / unit, so one stream is at most one "
+        "MetricData per collection: more than one is reported as a violation (two interval chains for one stream "
+        "cannot both abut)",
+        "a reader registered with AddMetricReader after a stream had measurements 'may not receive any in-flight meter "
+        "data' (meter_provider.h): what it counts from is SDK start, or a collection of any reader before the "
+        "registration, or the registration - one such point for all attribute sets of the stream, fixed by its first "
+        "collection; its first delta interval may start anywhere in [SDK start, its end]; cumulative points of a late "
+        "reader still start at SDK start (statement). AddMetricReader is documented as not thread safe: it is never "
+        "called while a Collect call is in progress (meter_sched calls it while recorder threads run, which involves "
+        "no shared state)",
+        "the interval end lies inside the Collect call [stamp before, stamp after] (derived from 'each measurement falls "
+        "in exactly one interval' + 'each starts where the previous one ended' for measurements recorded right before "
+        "and right after the call)",
+        "timestamp order against the harness's own stamps (interval contains its measurements, end >= start, end inside "
+        "the call) is skipped for a case in which the system clock was observed stepping backwards; equalities "
+        "(cumulative start == SDK start, delta start == previous end) are always checked",
+        "the views of one instrument always produce differently named streams (a '*' view keeps the instrument name, "
+        "the own views of the instruments it matches then all rename), and a name is always re-created with the same "
+        "kind/unit/description (identical instrument): conflicting registrations are not part of the statement",
         "not asserted here (owned by C08/C19): which of two different values of a repeated key wins (a repeated key "
-        "carries the same value), non NUL-terminated keys against an allow-list (keys are NUL terminated), name "
-        "validation",
+        "carries the same value), name validation, the selection semantics of view patterns beyond exact name / '*' / "
+        "exact meter name",
         "counter_threads: the schedule is whatever the OS produces; the oracles hold under every schedule, so a "
         "failure is a real violation under some schedule but a replay may need several attempts",
         SC_NOTE,
